@@ -18,11 +18,13 @@ def oracle(case) -> Info:
     prelude = case[4] if len(case) > 4 else "none"
     run_prelude(prelude)
     body, exp = C.kaifa_body(layout, items)
+    C.scribble(guarded(kaifa.decode_notification_body, body, what="kaifa.decode_notification_body"))  # a first result, modified by the caller
     d_body = guarded(kaifa.decode_notification_body, body, what="kaifa.decode_notification_body")
     m = C.dict_mismatch(d_body, exp)
     if m:
         fail(f"decode_notification_body (layout {layout}): {m}; body {body.hex()[:600]}", sig="body:" + m.split(":")[0][:40])
     frame = C.llc_apdu(body, None if apdu_dt is None else tuple(apdu_dt), tagged)
+    C.scribble(guarded(kaifa.decode_frame_content, frame, what="kaifa.decode_frame_content"))
     d_frame = guarded(kaifa.decode_frame_content, frame, what="kaifa.decode_frame_content")
     exp_frame = dict(exp)
     has_clock = any(k == "clock" for _n, k, _v in items)
@@ -57,6 +59,7 @@ def build() -> Check:
             "Non-trivial = all registers pairwise distinct (a swapped position cannot cancel) and >=1 register >= 2^31. Distinct = case hash."
         ),
         assumptions=[
+            "Every payload is decoded twice; the caller modifies the first returned dictionary before the second call (results must not be shared objects).",
             "Before each decode a drawn prelude lets another decoder (or all) process genuine messages in the same process: decoders must not depend on what was decoded before.",
             "Identification strings are printable ASCII (1..24 chars): a 12-octet string of control characters can legitimately parse as a date-time in that position.",
             "Positional layouts always carry an APDU date-time (as every capture does); the OBIS-tagged layout always carries its clock element.",
